@@ -3110,6 +3110,14 @@ class Summarizer(Evaluator):
                 f = node.value.func.value
                 if isinstance(f, ast.Attribute):
                     attrs.add(f.attr)
+        # a call (anywhere in the body, not only as a statement) of a method
+        # that changes its receiver changes that object
+        try:
+            for r in self._impure_roots(body):
+                if r not in ('self', 'cls'):
+                    mutated.add(r)
+        except Exception:
+            pass
         depth = self.depth
         # snapshots of objects changed in place
         mkeys = set()
@@ -3856,6 +3864,23 @@ class Summarizer(Evaluator):
             if not body:
                 body = [ast.copy_location(ast.Pass(), n)]
         body_probe = State(dict(st.env), dict(st.heap), [])
+        # a local read by the test, not re-bound by the body, whose value
+        # was computed from an object the body changes (a state-changing
+        # method is called on it): the test sees the old value every time
+        try:
+            roots = set(('name', r) for r in self._impure_roots(body)
+                        if r not in ('self', 'cls'))
+        except Exception:
+            roots = set()
+        if roots:
+            stored = self._assigned_names(body)
+            for x in ast.walk(test):
+                if isinstance(x, ast.Name) and x.id in body_probe.env \
+                        and x.id not in stored:
+                    kv = key(body_probe.env[x.id])
+                    if kv not in roots and kv[0] != 'snapshot' \
+                            and mentions_any(kv, roots):
+                        body_probe.env[x.id] = ('snapshot', kv)
         t = as_bool(self.k(test, body_probe))
         gens_key = ((('bv', self.depth), ('while', t), ()),)
         return self._loop(n, st, gens_key, lambda s: None, body=body,
